@@ -55,3 +55,71 @@ def main(prop, path):
         print(json.dumps(o.replay, indent=1))
         return 1 if o.replay and o.replay.get("reproduced") else 0
     return 0
+
+
+# --------------------------------------------------------------------------
+# Engine C replays
+
+FCONV_SCRIPT = r'''
+import sys, importlib
+fam, v = %(fam)r, %(v)r
+M = importlib.import_module("BTrees._%%sBTree" %% fam)
+rng = {"I": (-2**31, 2**31-1), "U": (0, 2**32-1), "L": (-2**63, 2**63-1), "Q": (0, 2**64-1)}
+bad = []
+for kind in ("BTree", "Bucket", "TreeSet", "Set"):
+    cls = getattr(M, fam + kind)
+    for role in (("key", "value") if kind in ("BTree", "Bucket") else ("key",)):
+        code = fam[0] if role == "key" else fam[1]
+        if code not in rng:
+            continue
+        lo, hi = rng[code]
+        rep = isinstance(v, int) and lo <= v <= hi
+        t = cls()
+        try:
+            if kind in ("BTree", "Bucket"):
+                if role == "key":
+                    t[v] = 1
+                else:
+                    t[1] = v
+                got = list(t.items())
+                want = [(v, 1)] if role == "key" else [(1, v)]
+            else:
+                t.add(v)
+                got, want = list(t), [v]
+            out = "stored %%r" %% (got,)
+            ok = rep and got == want
+        except TypeError:
+            out, ok = "TypeError", not rep
+            if (list(t.items()) if kind in ("BTree", "Bucket") else list(t)):
+                ok, out = False, out + " but the container was modified"
+        except Exception as e:
+            out, ok = "%%s: %%s" %% (type(e).__name__, e), False
+        if not ok:
+            bad.append("%%s as %%s of %%s%%s: %%s (representable=%%s)" %% (v, role, fam, kind, out, rep))
+print("\n".join(bad) or "no violation")
+sys.exit(1 if bad else 0)
+'''
+
+
+def replay_fconv(ctx, res):
+    """F-CONV counter-model -> offer the model's Python integer as key and as
+    value to the real extension of that family."""
+    import re
+    from lib import build
+    for o in res.obligations:
+        if o.status != "refuted" or not o.name.startswith("F-CONV") or not o.model:
+            continue
+        m = re.search(r"pyint_value.*?else -> (-?\d+)", str(o.model))
+        fm = re.match(r"\[(\w\w)\]", o.detail or "")
+        if not m or not fm:
+            continue
+        fam, v = fm.group(1), int(m.group(1))
+        script = FCONV_SCRIPT % {"fam": fam, "v": v}
+        try:
+            bdir = build.build((fam,))
+            e = dict(os.environ, PYTHONPATH=bdir + os.pathsep + VERIF)
+            p = subprocess.run([PY, "-c", script], env=e, capture_output=True, text=True, timeout=120)
+            o.replay = {"reproduced": p.returncode == 1, "outcome": (p.stdout + p.stderr)[-1500:],
+                        "script": script, "families": [fam], "input": v}
+        except Exception as ex:
+            o.replay = {"reproduced": False, "outcome": "replayer error: %r" % (ex,)}
